@@ -20,6 +20,7 @@ import (
 	"bufio"
 	"bytes"
 	"encoding/hex"
+	"errors"
 	"fmt"
 	"io"
 	"net"
@@ -220,14 +221,28 @@ func (e *c37Env) exchange(method string, raw []byte) (*c37Result, error) {
 	}
 	resp, err := http.ReadResponse(e.rd, &http.Request{Method: method})
 	if err != nil {
+		local := e.conn.LocalAddr().String()
+		e.conn.Close()
+		e.conn = nil
+		if errors.Is(err, io.EOF) || errors.Is(err, io.ErrUnexpectedEOF) {
+			// Refinery closed the connection instead of answering: an observation, not a harness failure
+			return &c37Result{status: -1, header: http.Header{}, local: local}, nil
+		}
 		return nil, fmt.Errorf("reading Refinery's response: %w", err)
 	}
 	body, err := io.ReadAll(resp.Body)
 	resp.Body.Close()
+	res := &c37Result{status: resp.StatusCode, header: resp.Header, body: body, local: e.conn.LocalAddr().String()}
 	if err != nil {
+		e.conn.Close()
+		e.conn = nil
+		if errors.Is(err, io.EOF) || errors.Is(err, io.ErrUnexpectedEOF) {
+			// the announced body did not arrive completely: also an observation
+			res.body = append(res.body, []byte(" [c37: body cut short]")...)
+			return res, nil
+		}
 		return nil, fmt.Errorf("reading Refinery's response body: %w", err)
 	}
-	res := &c37Result{status: resp.StatusCode, header: resp.Header, body: body, local: e.conn.LocalAddr().String()}
 	if resp.Close {
 		e.conn.Close()
 		e.conn = nil
